@@ -4,15 +4,121 @@ package main
 // operand values (built with -race by the check).
 
 import (
+	"crypto/sha256"
+	"fmt"
 	"sort"
 	"sync"
+
+	"github.com/zclconf/go-cty/cty"
+	"github.com/zclconf/go-cty/cty/convert"
+	ctyjson "github.com/zclconf/go-cty/cty/json"
+	"github.com/zclconf/go-cty/cty/msgpack"
 )
+
+// typeBattery runs the read-only type API on a shared type and describes what it saw.
+func typeBattery(t cty.Type) string {
+	out := ""
+	guard(func() {
+		out += fmt.Sprint(t.Equals(t), t.HasDynamicTypes(), len(t.TestConformance(t)), t.FriendlyName(), "|")
+		s := t.WithoutOptionalAttributesDeep()
+		out += fmt.Sprint(s.Equals(t), s.GoString(), "|", t.GoString(), "|")
+		if b, err := ctyjson.MarshalType(t); err == nil {
+			out += string(b)
+		}
+		if t.IsObjectType() {
+			out += fmt.Sprint(len(t.AttributeTypes()), t.OptionalAttributes())
+		}
+		if t.IsTupleType() {
+			out += fmt.Sprint(len(t.TupleElementTypes()))
+		}
+	})
+	return out
+}
+
+// valueBattery runs read-only accessors and whole-value operations on a shared value.
+func valueBattery(v cty.Value) string {
+	out := ""
+	guard(func() {
+		out += fmt.Sprintf("%#v|", v)
+		u, pvm := v.UnmarkDeepWithPaths()
+		out += fmt.Sprint(len(pvm), u.IsWhollyKnown(), u.HasWhollyKnownType(), "|")
+		if u.IsKnown() && !u.IsNull() {
+			guard(func() { out += fmt.Sprint(u.Hash(), "|") })
+		}
+		if !u.IsKnown() {
+			r := u.Range()
+			out += fmt.Sprint(r.DefinitelyNotNull(), r.TypeConstraint().FriendlyName(), "|")
+		}
+		if c, err := convert.Convert(v, v.Type()); err == nil {
+			out += fmt.Sprint(c.RawEquals(v), "|")
+		}
+		if c, err := convert.Convert(u, cty.DynamicPseudoType); err == nil {
+			out += fmt.Sprint(c.RawEquals(u), "|")
+		}
+		if b, err := ctyjson.Marshal(u, u.Type()); err == nil {
+			out += string(b) + "|"
+		}
+		if b, err := msgpack.Marshal(u, u.Type()); err == nil {
+			out += fmt.Sprintf("%x|", b)
+		}
+		n := 0
+		cty.Walk(u, func(p cty.Path, m cty.Value) (bool, error) { n += len(p) + 1; return true, nil })
+		out += fmt.Sprint(n, "|", typeBattery(v.Type()))
+	})
+	return out
+}
+
+func digest(s string) string { return fmt.Sprintf("%x", sha256.Sum256([]byte(s)))[:16] }
+
+func distinct(l []string) []any {
+	seen := map[string]bool{}
+	out := []string{}
+	for _, x := range l {
+		if !seen[x] {
+			seen[x] = true
+			out = append(out, x)
+		}
+	}
+	sort.Strings(out)
+	r := []any{}
+	for _, x := range out {
+		r = append(r, x)
+	}
+	return r
+}
 
 func init() { register("conc", driveConc) }
 
 func driveConc(c *Ctx) error {
 	const G = 8
+	line := 0
 	return readLines(c.In, func(j J) error {
+		line++
+		battery := line%3 == int(c.Seed)%3
+		if tj, ok := j["t"]; ok {
+			// a shared TYPE used by all goroutines
+			t := ConcretizeType(asJ(tj))
+			seq := typeBattery(t)
+			var wg sync.WaitGroup
+			start := make(chan struct{})
+			res := make([]string, G)
+			for g := 0; g < G; g++ {
+				wg.Add(1)
+				go func(g int) { defer wg.Done(); <-start; res[g] = typeBattery(t) }(g)
+			}
+			close(start)
+			wg.Wait()
+			ds := make([]string, G)
+			for i, r := range res {
+				ds[i] = digest(r)
+			}
+			rc := []any{}
+			for _, d := range distinct(ds) {
+				rc = append(rc, J{"ok": true, "d": d})
+			}
+			c.Out.Emit(J{"ev": "conc", "api": "type", "x": J{}, "a": []any{}, "rseq": J{"ok": true, "d": digest(seq)}, "rconc": rc})
+			return nil
+		}
 		api := asS(j["api"])
 		xs := asL(j["xs"])
 		if len(xs) == 0 {
@@ -22,6 +128,19 @@ func driveConc(c *Ctx) error {
 			x := asJ(xx)
 			args := concretizeArgs(asL(j["a"]), 0)
 			rseq := run(api, args, x)
+			// what the read-only battery reports sequentially, and per goroutine (digests; compared by the trace spec)
+			bat := func() string {
+				if !battery {
+					return ""
+				}
+				s := ""
+				for _, a := range args {
+					s += valueBattery(a) + "#"
+				}
+				return digest(s)
+			}
+			bseq := bat()
+			bconc := make([]string, G)
 			var wg sync.WaitGroup
 			start := make(chan struct{})
 			res := make([]J, G)
@@ -31,10 +150,11 @@ func driveConc(c *Ctx) error {
 					defer wg.Done()
 					<-start
 					res[g] = run(api, args, x)
-					// read-only accessors on the shared operands as well
+					// read-only accessors and whole-value operations on the shared operands as well
 					for _, a := range args {
 						_ = Project(a)
 					}
+					bconc[g] = bat()
 				}(g)
 			}
 			close(start)
@@ -48,7 +168,7 @@ func driveConc(c *Ctx) error {
 				}
 			}
 			sort.Slice(rc, func(i, k int) bool { return jsonKey(rc[i]) < jsonKey(rc[k]) })
-			c.Out.Emit(J{"ev": "conc", "api": api, "x": x, "a": projectArgs(args), "rseq": rseq, "rconc": rc})
+			c.Out.Emit(J{"ev": "conc", "api": api, "x": x, "a": projectArgs(args), "rseq": rseq, "rconc": rc, "bseq": bseq, "bconc": distinct(bconc)})
 		}
 		return nil
 	})
